@@ -2,7 +2,7 @@
    the names of the JobType members, as READ from /repo's current source, equal Model/Table.v's row.
    Re-proved on every run. *)
 From Coq Require Import ZArith List Bool Lia.
-From Sv Require Import PyTime Timer Job Sched Table PyRepr.
+From Sv Require Import PyTime Timer Job Sched Table PyRepr TableProofs.
 From Gen Require Import GenStr GenTable GenStrRow TieStr TieTable.
 Import ListNotations.
 Open Scope Z_scope.
@@ -43,3 +43,27 @@ Theorem tie_thr_table_row v : GenTable.thr_entries (gen_str_row v) (v_weight v) 
 Proof. rewrite tie_str_row. exact (tie_thr_entries v). Qed.
 Theorem tie_aio_table_row v w : GenTable.aio_entries (gen_str_row v) w = row_cells false v.
 Proof. rewrite tie_str_row. exact (tie_aio_entries v w). Qed.
+
+(* C20 restated on the GENERATED layout: a row rendered from the translated _str() through the translated columns,
+   cell expressions and tz-drop slice is exactly as wide as the header row rendered from the translated names *)
+Definition gen_drop {A} (p : nat * nat) (l : list A) : list A := firstn (fst p) l ++ skipn (snd p) l.
+Theorem gen_thr_row_width (has_tz : bool) v :
+  let cols := if has_tz then GenTable.thr_cols else gen_drop GenTable.thr_tz_drop GenTable.thr_cols in
+  let pick := fun l : list pystr => if has_tz then l else gen_drop GenTable.thr_tz_drop l in
+  length (fmt_row cols (pick (GenTable.thr_entries (gen_str_row v) (v_weight v)))) =
+  length (fmt_row cols (pick GenTable.thr_names)).
+Proof.
+  cbv zeta. rewrite tie_thr_table_row, tie_thr_cols, tie_thr_names.
+  pose proof (TableProofs.row_width_eq_header true has_tz v) as H.
+  unfold TableProofs.cols_of, TableProofs.pick_of in H. destruct has_tz; exact H.
+Qed.
+Theorem gen_aio_row_width (has_tz : bool) v w :
+  let cols := if has_tz then GenTable.aio_cols else gen_drop GenTable.aio_tz_drop GenTable.aio_cols in
+  let pick := fun l : list pystr => if has_tz then l else gen_drop GenTable.aio_tz_drop l in
+  length (fmt_row cols (pick (GenTable.aio_entries (gen_str_row v) w))) =
+  length (fmt_row cols (pick GenTable.aio_names)).
+Proof.
+  cbv zeta. rewrite tie_aio_table_row, tie_aio_cols, tie_aio_names.
+  pose proof (TableProofs.row_width_eq_header false has_tz v) as H.
+  unfold TableProofs.cols_of, TableProofs.pick_of in H. destruct has_tz; exact H.
+Qed.
